@@ -37,18 +37,18 @@ FOCUS = {
                 derive=['parse', 'parse', 'parse', 'compact'], p_derive=[0.5, 0.7], level='fault_enumeration',
                 variants=True, steps_cap=12),
     'C12': dict(roots=[(0, 1), (1, 1)], armed=[], faults=['F-ORD'], hist=[], small=True,
-                derive=['probe_paths', 'probe_paths', 'probe_paths', 'probe_all', 'slice', 'nx:clear'], p_derive=[0.3, 0.5]),
+                derive=['probe_paths'] * 6 + ['probe_all', 'probe_all', 'slice', 'nx:clear', 'convert', 'restart:snapshots', 'restart:json', 'freeze'], p_derive=[0.3, 0.5]),
     'C13': dict(roots=[(0, 1), (1, 1)], armed=[], faults=['F-ORD'], hist=[], small=True,
-                derive=['probe_paths', 'probe_paths', 'probe_paths', 'probe_all', 'slice', 'nx:clear'], p_derive=[0.3, 0.5]),
+                derive=['probe_paths'] * 6 + ['probe_all', 'probe_all', 'slice', 'nx:clear', 'convert', 'restart:snapshots', 'restart:json', 'freeze'], p_derive=[0.3, 0.5]),
     'C15': dict(roots=[(0, 1), (1, 1)], armed=[], faults=['F-ORD'], hist=[], small=True,
-                derive=['probe_dag', 'probe_dag', 'probe_dag', 'probe_dag', 'slice', 'nx:clear'], p_derive=[0.3, 0.5]),
+                derive=['probe_dag'] * 8 + ['slice', 'nx:clear', 'convert', 'restart:snapshots', 'restart:json', 'freeze'], p_derive=[0.3, 0.5]),
     'C17': dict(roots=[(0, 1), (0, 1), (1, 1)], armed=[], faults=['F-ORD'], hist=[], selfloops=[0.0, 0.0, 0.05],
-                derive=['probe_stats', 'probe_stats', 'probe_stats', 'slice', 'restart:snapshots'], p_derive=[0.3, 0.5]),
+                derive=['probe_stats'] * 8 + ['slice', 'restart:snapshots', 'restart:interactions', 'restart:json', 'convert', 'nx:clear', 'freeze'], p_derive=[0.3, 0.5]),
     'C19': dict(roots=[(0, 1), (1, 1), (0, 1), (1, 1), (0, 0), (1, 0)], armed=[], faults=['F-ORD', 'F-BULK'],
                 hist=['shadow'], derive=['nx:blocked', 'nx:blocked', 'nx:any', 'nx:any', 'nx:frozen', 'freeze'],
                 p_derive=[0.3, 0.5], p_node=[0.1, 0.2], level='fault_enumeration', steps_cap=24),
     'C20': dict(roots=[(0, 1)], armed=[], faults=['F-ORD'], hist=[], small=True, selfloops=[0.0], chains=True,
-                derive=['probe_conf', 'probe_conf', 'probe_conf', 'slice'], p_derive=[0.25, 0.4], p_node=[0.0, 0.1]),
+                derive=['probe_conf'] * 8 + ['slice', 'restart:snapshots', 'restart:json', 'nx:clear'], p_derive=[0.25, 0.4], p_node=[0.0, 0.1]),
     'C16': dict(roots=[(0, 1), (1, 1)], armed=['c03', 'c04', 'c05', 'attrs'], scope='derived', faults=['F-ORD'],
                 hist=[], derive=['convert', 'alias'], p_derive=[0.15, 0.3], p_node=[0.1, 0.25]),
     'C07': dict(roots=[(0, 1), (1, 1), (0, 0), (1, 0)], armed=['c07'], level='fault_enumeration', variants=True,
@@ -341,7 +341,8 @@ def gen_step(world, rng, cfg):
         # returning to its first node, with an instant in between at which only another pair interacts
         nodes = cfg['nodes']
         ids = rep.m.instants()
-        t = (ids[-1] + 1) if ids and rng.random() < 0.5 else cfg['origin'] + rng.randint(0, 2)
+        base = ids[0] if ids and abs(ids[0] - cfg['origin']) > 64 else cfg['origin']
+        t = (ids[-1] + 1) if ids and rng.random() < 0.5 else base + rng.randint(0, 2)
         walk = [rng.choice(nodes)]
         for _ in range(rng.randint(2, 4)):
             walk.append(rng.choice([n for n in nodes if n != walk[-1]] or nodes))
